@@ -304,6 +304,15 @@ func runC07(c *Ctx) *Replay {
 				sc.Sched = drawSchedule(c.R, len(in), nil)
 				sc.Reader = readerKinds[c.R.Intn(len(readerKinds))]
 			}
+			if dec != "makefrombytes" && i%3 == 2 {
+				// the receiver is not fresh: the valid encoding the corruption was made from
+				// (or another value's) was decoded into it before
+				sc.Prefill = data
+				if c.R.Chance(1, 3) {
+					sc.Prefill = foreign
+				}
+				c.Count("reused_receivers", 1)
+			}
 			viol := execCorrupt(c.N, &sc)
 			c.Count("evaluations", 1)
 			c.Count("fault:corrupt-"+mutClass(desc), 1)
@@ -330,13 +339,16 @@ func execCorrupt(n *Node, sc *Scenario) *Violation {
 		note(sc, "skipped", "build absent")
 		return nil
 	}
+	n.prefill = sc.Prefill
 	do := n.decode(b, sc.Type, sc.Decoder, sc.Input, sc.Sched, nil, sc.Reader, len(sc.Input))
+	n.prefill = nil
 	if do.NoSuch {
 		note(sc, "skipped", "decoder not generated")
 		return nil
 	}
 	if v := callViolation(&do.Call, sc, b.Schema, sc.Decoder); v != nil {
 		v.Facts["mutation"] = mutClass(sc.Mutation)
+		v.Facts["reused_receiver"] = fmt.Sprint(sc.Prefill != nil)
 		v.Facts["decoder_path"] = "bytes"
 		if isStreamDecoder(sc.Decoder) {
 			v.Facts["decoder_path"] = "stream"
